@@ -53,8 +53,11 @@ def gen_setup(rng, sid, profile):
                 want = rng.choice([47, 47, 63, 255 - 128, 3, 11, 15, 5, 0, 46, 47])
                 given = rng.choice([47, 47, 63, 127, 3, 15, 47, 46, 7, 47])
             else:
-                want = rng.choice([47, 63, 127, 3, 0, 46, 47, 175, 255, 31])
+                want = rng.choice([47, 63, 127, 3, 0, 46, 47, 47, 127, 31])
                 given = rng.choice([47, 63, 127, 3, 46, 47, 255, 31, 191, 0])
+            if want & given & 128:
+                # exactly one effective owner in the seeded state: a pending transfer has O in given only
+                want &= ~128
             sc.head.append("subrow %d want=%d given=%d" % (i, want, given))
     s = 0
     for i in range(1, n + 1):
